@@ -4,6 +4,9 @@
 // compiled only under the build tag "verif").
 package gnmi
 
+// Every function under contract in this package also serves the properties that depend on the whole package.
+//@ package-props C20
+
 // reset builds the update queue from the configured values and, unless disabled, files
 // the sync marker at the latest initial timestamp of the configuration, to be emitted
 // once: the queue appends it to the END of that timestamp's bucket (queue.addValue:
